@@ -38,6 +38,7 @@ func runC13(c *Ctx) {
 		c.Undecided("heavier-strict", "SufficientlyHeavierThan", "", "anchor does not resolve")
 	}
 
+	c13CarryChain(c)
 	// (1) writers of the PoW fields
 	pow := map[string]bool{"Index": true, "PrevTimestamps": true, "Depth": true, "ChildTarget": true, "OakTime": true, "OakTarget": true, "TotalWork": true, "Difficulty": true, "OakWork": true}
 	allowed := map[string]string{
@@ -269,6 +270,9 @@ func c13Dispatch(c *Ctx, ge *GuardEngine) {
 	for _, h := range []string{"AllowHeight", "FinalCutHeight"} {
 		r := req("dispatch-on-"+h, FuncName(disp), "%CH%", opLT, "%NET%.HardforkV2."+h, "the difficulty algorithm is chosen by the child height against the "+h, "%CH% >= %NET%.HardforkV2.AllowHeight")
 		r.Weak = true
+		// a dispatcher has no rejecting side: "x < H" on one edge and "x >= H" on the other are the same partition
+		// (what must not move is the boundary: <= / > would shift the era by one block)
+		r.Ops = []string{"<", ">="}
 		ge.CheckReq(c, "era-dispatch", r, gs)
 	}
 	rets := ge.ReturnAtoms(disp, 0)
